@@ -1414,6 +1414,9 @@ func returnsSomeValue(ret *ssa.Return, ei int) bool {
 			continue
 		}
 		r = unspillResult(ret, r)
+		if mi, isMI := r.(*ssa.MakeInterface); isMI {
+			r = mi.X // a zero struct wrapped in an interface (`return Column{}, nil`) is still no value
+		}
 		cst, ok := r.(*ssa.Const)
 		if !ok {
 			return true
